@@ -88,6 +88,35 @@ def p_lines(t):
     return None
 
 
+def p_from_lines(t):
+    """the parser handed the numbered lines of a text (the step under the text route) reports what the text route
+    reports, leaves the caller's lines as they were, and reports the same when handed the same lines again; the fields
+    it returns hold their own line objects, so that trimming or editing a returned line does not reach the caller's"""
+    try:
+        want = _d822.groups_t(deb822.get_paragraphs_as_field_groups(t))
+        lines = deb822.NumberedLine.lines_from_text(t)
+        snap = [(l.number, l.value) for l in lines]
+        ids = set(id(l) for l in lines)
+        g1 = list(deb822.get_paragraphs_as_field_groups_from_lines(lines))
+        r1 = _d822.groups_t(g1)
+        if [(l.number, l.value) for l in lines] != snap:
+            k = [i for i, l in enumerate(lines) if (l.number, l.value) != snap[i]][0] if len(lines) == len(snap) else -1
+            return 'parsing a list of numbered lines changes the list: line %r is now %r' % (snap[k] if k >= 0 else None, (lines[k].number, lines[k].value) if k >= 0 else len(lines))
+        r2 = _d822.groups_t(deb822.get_paragraphs_as_field_groups_from_lines(lines))
+        r3 = _d822.groups_t(deb822.get_paragraphs_as_field_groups_from_lines(tuple(lines)))
+        k = (7, 1000, len(lines) + 3, 1)[len(t) % 4]
+        r4 = _d822.groups_offset(t, k)
+    except Exception as e:  # noqa
+        return 'raises %s' % type(e).__name__
+    if r1 != want:
+        return 'the lines of the text parse to %r, the text to %r' % (r1, want)
+    if r4 != r1:
+        return 'the same lines numbered from %d parse to %r, numbered from 1 to %r' % (k + 1, r4, r1)
+    if r2 != r1 or r3 != r1:
+        return 'the same numbered lines parse to %r the first time and %r (list), %r (tuple) the second' % (r1, r2, r3)
+    return None
+
+
 def p_abandoned(x):
     """a caller may stop reading a lazily produced result after its first paragraph; the next, unrelated call answers as
     if that had not happened"""
@@ -150,6 +179,7 @@ def run(ctx):
     bad += ctx.compare('corr:groups', [('groups', [t]) for t in texts], impl)
     bad += ctx.compare('corr:text_lines', [('text_lines', [t]) for t in texts[:20000]], impl)
     fails = ctx.prop('prop:lines', texts, p_lines)
+    fails += ctx.prop('prop:from-numbered-lines', texts[:ctx.n(8000, 80000)] + seqs[::3], p_from_lines)
     two = [t for t in texts[:6000] if '\n\n' in t and len(t) < 400]
     fails += ctx.prop('prop:unfinished-results', [(rng.choice(two), rng.choice(texts[:6000])) for _ in range(ctx.n(2000, 20000))] +
                       [('a: 1\nb: 2\n\nc: 3\n', ''), ('a: 1\n\nb: 2\n', 'x: y\n'), ('junk\n\na: 1\n', 'z: 1\n\nw: 2\n')], p_abandoned)
